@@ -16,11 +16,20 @@ RULE = ("(word) all 65536 16-bit words, one case per word (1-D one-element call 
         "away from the 1.2 V threshold on either side over a constant floor held for > 10% of the samples; oracle: shape "
         "(n, 16 [+ analog]), bits, thresholded harness volts, and fronts/rises/falls on each line == generated edges. "
         "(fronts) 1-D and 2-D int8/float arrays along both axes, step thresholds, analog mode against a brute-force loop. "
-        "Non-trivial = word with >= 2 bits set incl. one in the high byte; train with >= 3 active lines; fronts on 2-D. "
-        "Distinct = distinct case hash (words are distinct by construction).")
+        "(layout) the array handed to fronts / rises / falls / split_sync is drawn in a memory layout / container: fresh "
+        "C-contiguous, Fortran-ordered, transposed view, every-other-element / every-other-row strided views, a window of a "
+        "bigger C or Fortran buffer, reversed (negative stride) view, column of a wider matrix, plain nested list (fronts and "
+        "non-analog rises only), each optionally read-only; the oracle is the brute-force loop over the logical content, so "
+        "layout must not matter, and the input (and the buffer around it) must be unchanged after every call. The end-to-end "
+        "part feeds the [ns, 16] array of read_sync transposed to one line per row (view and copy), Fortran-ordered, as a "
+        "column subset, as a window of a wider buffer and read-only, to fronts / rises / falls. "
+        "Non-trivial = word with >= 2 bits set incl. one in the high byte; train with >= 3 active lines; fronts on 2-D; "
+        "split with >= 2 words. Distinct = distinct case hash (words are distinct by construction).")
 EXHAUSTIVE_NOTE = "all 65536 sync words enumerated (per-word and vectorised calls); trains and fronts are sampled"
 ASSUMPTIONS = ["one digital word per sample (dw = 1), as the 16 lines of the property imply",
-               "analog levels are never placed within 2 LSB of the threshold, and the floor percentile equals the constant floor"]
+               "analog levels are never placed within 2 LSB of the threshold, and the floor percentile equals the constant floor",
+               "plain (nested) lists are legitimate inputs of fronts and of rises without analog=True (np.diff is array_like); "
+               "falls and analog mode negate / compare the input and are fed arrays only; split_sync is fed numpy vectors only"]
 BUDGET = {"quick": 8000, "thorough": 250000}
 
 
@@ -70,7 +79,14 @@ def _train(draw):
     slices = draw(st.lists(st.tuples(st.integers(0, ns), st.integers(0, ns)), max_size=3))
     return {"mode": "train", "spec": spec, "trains": trains, "analog": analog, "cbin": draw(st.booleans()),
             "chunk": draw(st.integers(5, 80)), "content_seed": draw(st.integers(0, 2 ** 31)),
-            "slices": [list(s) for s in slices]}
+            "slices": [list(s) for s in slices], "e2e_layout": draw(st.sampled_from(LAY_E2E)), "e2e_ro": draw(st.booleans()),
+            "e2e_axis": draw(st.sampled_from(["pos", "neg", "default"])), "lay_p": draw(st.integers(0, 3))}
+
+
+LAY_1D = ["c", "strided", "window", "neg", "column", "f_row", "list"]
+LAY_2D = ["c", "f", "T", "strided_last", "strided_first", "window", "f_window", "neg", "list"]
+LAY_SPLIT = ["c", "strided", "window", "neg", "column", "f_row"]
+LAY_E2E = ["c", "T", "T", "T_copy", "f", "cols", "window", "f_window"]
 
 
 @st.composite
@@ -81,11 +97,20 @@ def _fronts(draw):
     return {"mode": "fronts", "ndim": ndim, "n": n, "m": m, "axis": draw(st.sampled_from([-1, 0] if ndim == 1 else [-1, 0, 1])),
             "dtype": draw(st.sampled_from(["int8", "float64", "float32", "int16"])),
             "levels": draw(st.sampled_from(["01", "steps", "analog"])), "step": draw(st.sampled_from([1, 1, 2, 0.5, 3])),
-            "seed": draw(st.integers(0, 2 ** 31)), "time_axis_first": draw(st.booleans())}
+            "seed": draw(st.integers(0, 2 ** 31)), "time_axis_first": draw(st.booleans()),
+            "layout": draw(st.sampled_from(LAY_1D if ndim == 1 else LAY_2D)), "ro": draw(st.booleans()),
+            "lay_p": draw(st.integers(0, 3))}
+
+
+@st.composite
+def _split(draw):
+    return {"mode": "split", "n": draw(st.integers(1, 120)), "seed": draw(st.integers(0, 2 ** 31)),
+            "layout": draw(st.sampled_from(LAY_SPLIT)), "ro": draw(st.booleans()), "lay_p": draw(st.integers(0, 3)),
+            "col": draw(st.booleans())}
 
 
 def strategy(tier):
-    return st.one_of(_train(), _fronts())
+    return st.one_of(_train(), _train(), _train(), _fronts(), _fronts(), _fronts(), _split())
 
 
 def _bits(words):
@@ -100,6 +125,125 @@ def _edges(line):
         if line[i] != line[i - 1]:
             out.append((i, 1 if line[i] > line[i - 1] else -1))
     return out
+
+
+def _layout(x, layout, p, ro, rng):
+    """The logical array x (1-D or 2-D, C-contiguous) in the drawn memory layout / container.
+    Returns (xin, base): xin holds the values of x, base is the buffer that owns the memory (None for a list)."""
+    dt = x.dtype
+
+    def junk(shape, order="C"):
+        b = rng.integers(-3, 4, size=shape).astype(dt)
+        return np.asfortranarray(b) if order == "F" else np.ascontiguousarray(b)
+
+    off = p % 2
+    if layout == "list":
+        return x.tolist(), None
+    if x.ndim == 1:
+        n = x.shape[0]
+        if layout == "strided":
+            base = junk(2 * n + 1)
+            xin = base[off::2][:n]
+        elif layout == "window":
+            base = junk(n + p + 2)
+            xin = base[p:p + n]
+        elif layout == "neg":
+            base = junk(n)
+            xin = base[::-1]
+        elif layout == "column":
+            base = junk((n, 3))
+            xin = base[:, p % 3]
+        elif layout == "f_row":
+            base = junk((3, n), "F")
+            xin = base[p % 3]
+        else:
+            base = junk(n)
+            xin = base
+    else:
+        a, b = x.shape
+        if layout == "f":
+            base = junk((a, b), "F")
+            xin = base
+        elif layout == "T":
+            base = junk((b, a))
+            xin = base.T
+        elif layout == "strided_last":
+            base = junk((a, 2 * b + 1))
+            xin = base[:, off::2][:, :b]
+        elif layout == "strided_first":
+            base = junk((2 * a + 1, b))
+            xin = base[off::2][:a]
+        elif layout in ("window", "f_window"):
+            base = junk((a + p + 2, b + 3), "F" if layout == "f_window" else "C")
+            xin = base[p:p + a, 1:1 + b]
+        elif layout == "neg":
+            base = junk((a, b))
+            xin = base[::-1, ::-1]
+        else:
+            base = junk((a, b))
+            xin = base
+    xin[...] = x
+    if ro:
+        xin.flags.writeable = False
+        base.flags.writeable = False
+    return xin, base
+
+
+def _mem_class(xin):
+    if not isinstance(xin, np.ndarray):
+        return "mem_list"
+    if xin.ndim == 1:
+        return "mem_1d_contig" if xin.flags.c_contiguous else "mem_1d_strided"
+    if xin.flags.c_contiguous and xin.flags.f_contiguous:
+        return "mem_2d_c_and_f"
+    if xin.flags.c_contiguous:
+        return "mem_2d_c"
+    if xin.flags.f_contiguous:
+        return "mem_2d_f"
+    s = [abs(v) for v in xin.strides]
+    return "mem_2d_noncontig_c_like" if s[0] >= s[1] else "mem_2d_noncontig_f_like"
+
+
+class _Guard:
+    """Input must be unchanged after a call into the repository: snapshot of the array and of the buffer around it."""
+
+    def __init__(self, ctx, xin, base):
+        self.ctx, self.xin, self.base = ctx, xin, base
+        self.snap_x = np.array(xin, copy=True) if isinstance(xin, np.ndarray) else [list(r) if isinstance(r, list) else r for r in xin]
+        self.snap_b = None if base is None else np.array(base, copy=True)
+
+    def verify(self, what):
+        if isinstance(self.xin, np.ndarray):
+            same = (self.xin.shape == self.snap_x.shape and self.xin.dtype == self.snap_x.dtype and
+                    np.array_equal(self.xin, self.snap_x) and np.array_equal(self.base, self.snap_b))
+        else:
+            same = self.xin == self.snap_x
+        self.ctx.check(same, "C10.input_modified", lambda: f"{what} changed its input array (or the buffer around it)")
+
+
+def _ind_list(ctx, kind, ind, ndim):
+    """Index output of fronts / rises / falls -> list of position tuples, or None when it has not the documented form."""
+    ok = isinstance(ind, np.ndarray) and ind.dtype.kind in "iu" and ((ndim == 1 and ind.ndim == 1) or
+                                                                      (ndim > 1 and ind.ndim == 2 and ind.shape[0] == ndim))
+    if not ctx.check(ok, kind, lambda: f"indices: {type(ind).__name__} dtype {getattr(ind, 'dtype', None)} shape "
+                                       f"{getattr(ind, 'shape', None)} for a {ndim}-D input"):
+        return None
+    return [(int(i),) for i in ind.tolist()] if ndim == 1 else [tuple(c) for c in ind.T.tolist()]
+
+
+def _fronts_list(ctx, kind, r, ndim):
+    """Output of fronts -> list of (position tuple, polarity) or None."""
+    if not ctx.check(isinstance(r, tuple) and len(r) == 2, kind, lambda: f"fronts returned {type(r).__name__}, not (indices, polarities)"):
+        return None
+    pos = _ind_list(ctx, kind, r[0], ndim)
+    if pos is None:
+        return None
+    sign = r[1]
+    ok = isinstance(sign, np.ndarray) and sign.dtype.kind in "iuf" and sign.shape == (len(pos),)
+    if not ctx.check(ok, kind, lambda: f"polarities: {type(sign).__name__} dtype {getattr(sign, 'dtype', None)} shape "
+                                       f"{getattr(sign, 'shape', None)} for {len(pos)} indices"):
+        return None
+    return list(zip(pos, sign.astype(np.float64).tolist()))
 
 
 def run_case(case, ctx):
@@ -125,17 +269,54 @@ def run_case(case, ctx):
         rng = np.random.default_rng(0)
         words = words[rng.permutation(65536)]
         exp = _bits(words)
-        for arr, nm in ((words.view(np.int16), "1d"), (words.view(np.int16).reshape(-1, 1), "col")):
+        wide = np.zeros((65536, 3), dtype=np.int16)
+        wide[:, 1] = words.view(np.int16)  # the sync column of a [ns, nc] block of raw data, as the Reader passes it
+        ro = words.view(np.int16).copy()
+        ro.flags.writeable = False  # as data of a memmap opened with mode='r' are
+        for arr, nm in ((words.view(np.int16), "1d"), (words.view(np.int16).reshape(-1, 1), "col"), (wide[:, 1], "strided column"),
+                        (wide[:, 1:2], "strided (n, 1) column"), (ro, "read-only")):
+            keep = arr.copy()
             got = ctx.call("C10.split_sync", sg.split_sync, arr)
             if got is not ctx.CRASH:
-                ctx.check(got.shape == (65536, 16) and got.dtype == np.int8 and np.array_equal(got, exp), "C10.vector_bits",
-                          lambda: f"vector call ({nm}) differs from per-bit decoding")
+                ctx.check(isinstance(got, np.ndarray) and got.shape == (65536, 16) and got.dtype == np.int8 and
+                          np.array_equal(got, exp), "C10.vector_bits", lambda: f"vector call ({nm}) differs from per-bit decoding")
+                ctx.check(np.array_equal(arr, keep), "C10.input_modified", lambda: f"split_sync ({nm}) changed its input")
         ctx.nontrivial = True
         ctx.label("vector")
         return
     if mode == "fronts":
         return _run_fronts(case, ctx)
+    if mode == "split":
+        return _run_split(case, ctx, sg)
     _run_train(case, ctx, sg)
+
+
+def _run_split(case, ctx, sg):
+    rng = np.random.default_rng(case["seed"])
+    n = case["n"]
+    words = rng.integers(0, 65536, size=n).astype(np.uint16)
+    if rng.integers(0, 3) == 0:  # few distinct words, long runs
+        words = words[np.sort(rng.integers(0, min(n, 3), size=n))]
+    x = words.view(np.int16).copy()
+    lay, ro = case.get("layout", "c"), bool(case.get("ro", False))
+    xin, base = _layout(x, lay, case.get("lay_p", 0), ro, rng)
+    if case.get("col"):
+        xin = xin[:, None]
+    ctx.check(np.array_equal(np.asarray(xin).ravel(), x), "C10.harness_selfcheck", "layout changed the logical content")
+    ctx.label("split", "split_lay_" + lay, "split_" + ("col" if case.get("col") else "1d"), "split_ro" if ro else "split_rw",
+              "split_" + ("contig" if xin.flags.c_contiguous else "strided"))
+    if n >= 2:
+        ctx.nontrivial = True
+    guard = _Guard(ctx, xin, base)
+    exp = _bits(words)
+    got = ctx.call("C10.split_sync", sg.split_sync, xin)
+    if got is ctx.CRASH:
+        return
+    guard.verify("split_sync")
+    ctx.check(isinstance(got, np.ndarray) and got.shape == (n, 16) and got.dtype == np.int8 and np.array_equal(got, exp),
+              "C10.split_bits", lambda: f"split_sync on a {lay} ({'read-only' if ro else 'writeable'}) vector of {n} words: "
+                                        f"{type(got).__name__} {getattr(got, 'dtype', None)} {getattr(got, 'shape', None)} "
+                                        f"differs from per-bit decoding")
 
 
 def _run_fronts(case, ctx):
@@ -154,16 +335,25 @@ def _run_fronts(case, ctx):
         x = rng.integers(-40, 41, size=shape) / 8.0  # multiples of 1/8: exact in every float type
     if dt.kind == "i" and case["levels"] == "analog":
         x = np.round(x)
-    x = x.astype(dt)
+    x = np.ascontiguousarray(x.astype(dt))
     axis = case["axis"]
-    if ndim == 1 and axis == 0:
-        axis = 0
     step = case["step"]
-    ctx.label("fronts_%dd" % ndim, "dtype_" + case["dtype"], "lev_" + case["levels"])
-    if ndim == 2:
-        ctx.nontrivial = True
-    xf = x.astype(np.float64)
+    lay, ro = case.get("layout", "c"), bool(case.get("ro", False))
+    if lay not in (LAY_1D if ndim == 1 else LAY_2D):
+        lay = "c"
+    xin, base = _layout(x, lay, case.get("lay_p", 0), ro, rng)
+    is_list = base is None
+    ctx.check(np.array_equal(np.asarray(xin), x) and (is_list or xin.dtype == dt), "C10.harness_selfcheck",
+              "layout changed the logical content")
     ax = axis % x.ndim
+    ctx.label("fronts_%dd" % ndim, "dtype_" + case["dtype"], "lev_" + case["levels"], "lay%dd_%s" % (ndim, lay),
+              "fronts_" + _mem_class(xin), "fronts_list" if is_list else ("fronts_ro" if ro else "fronts_rw"))
+    if ndim == 2:
+        ctx.label("lay2d_%s_axis%d" % (lay, ax))
+        ctx.nontrivial = True
+    guard = _Guard(ctx, xin, base)
+    sfx = "_list" if is_list else ""
+    xf = x.astype(np.float64)
     # brute force over consecutive samples along ax
     xm = np.moveaxis(xf, ax, -1)
     exp_f, exp_r, exp_fa = [], [], []
@@ -180,22 +370,32 @@ def _run_fronts(case, ctx):
                 exp_r.append(pos)
             if -d >= step:
                 exp_fa.append(pos)
-    r = ctx.call("C10.fronts", U.fronts, x, axis=axis, step=step)
+    r = ctx.call("C10.fronts" + sfx, U.fronts, xin, axis=axis, step=step)
     if r is not ctx.CRASH:
-        ind, sign = r
-        ind = np.asarray(ind)
-        got = sorted(zip([tuple(c) for c in (ind.T if ind.ndim == 2 else ind[:, None])], np.asarray(sign, float).tolist()))
-        ctx.check(got == sorted(exp_f), "C10.fronts", lambda: f"fronts: got {got[:6]} expected {sorted(exp_f)[:6]}")
-    r = ctx.call("C10.rises", U.rises, x, axis=axis, step=step)
+        guard.verify("fronts")
+        got = _fronts_list(ctx, "C10.fronts" + sfx, r, ndim)
+        if got is not None:
+            got = sorted(got)
+            ctx.check(got == sorted(exp_f), "C10.fronts" + sfx,
+                      lambda: f"fronts ({lay} layout, axis {axis}): got {got[:6]} expected {sorted(exp_f)[:6]}")
+    r = ctx.call("C10.rises" + sfx, U.rises, xin, axis=axis, step=step)
     if r is not ctx.CRASH:
-        ind = np.asarray(r)
-        got = sorted(tuple(c) for c in (ind.T if ind.ndim == 2 else ind[:, None]))
-        ctx.check(got == sorted(exp_r), "C10.rises", lambda: f"rises: got {got[:6]} expected {sorted(exp_r)[:6]}")
-    r = ctx.call("C10.falls", U.falls, x, axis=axis, step=-step)
+        guard.verify("rises")
+        got = _ind_list(ctx, "C10.rises" + sfx, r, ndim)
+        if got is not None:
+            got = sorted(got)
+            ctx.check(got == sorted(exp_r), "C10.rises" + sfx,
+                      lambda: f"rises ({lay} layout, axis {axis}): got {got[:6]} expected {sorted(exp_r)[:6]}")
+    if is_list:
+        return  # falls negates its input and analog mode compares it with the threshold: arrays only
+    r = ctx.call("C10.falls", U.falls, xin, axis=axis, step=-step)
     if r is not ctx.CRASH:
-        ind = np.asarray(r)
-        got = sorted(tuple(c) for c in (ind.T if ind.ndim == 2 else ind[:, None]))
-        ctx.check(got == sorted(exp_fa), "C10.falls", lambda: f"falls: got {got[:6]} expected {sorted(exp_fa)[:6]}")
+        guard.verify("falls")
+        got = _ind_list(ctx, "C10.falls", r, ndim)
+        if got is not None:
+            got = sorted(got)
+            ctx.check(got == sorted(exp_fa), "C10.falls",
+                      lambda: f"falls ({lay} layout, axis {axis}): got {got[:6]} expected {sorted(exp_fa)[:6]}")
     if case["levels"] == "analog":
         # analog mode: the trace is first converted to boolean (> step), then 0->1 transitions are the rises
         thr = step
@@ -206,11 +406,80 @@ def _run_fronts(case, ctx):
                 if b[idx][i] - b[idx][i - 1] == 1:
                     full = list(idx)
                     exp_ar.append(tuple(full[:ax] + [i] + full[ax:]))
-        r = ctx.call("C10.rises_analog", U.rises, x, axis=axis, step=thr, analog=True)
+        r = ctx.call("C10.rises_analog", U.rises, xin, axis=axis, step=thr, analog=True)
         if r is not ctx.CRASH:
-            ind = np.asarray(r)
-            got = sorted(tuple(c) for c in (ind.T if ind.ndim == 2 else ind[:, None]))
-            ctx.check(got == sorted(exp_ar), "C10.rises_analog", lambda: f"analog rises: got {got[:6]} expected {sorted(exp_ar)[:6]}")
+            guard.verify("rises(analog=True)")
+            got = _ind_list(ctx, "C10.rises_analog", r, ndim)
+            if got is not None:
+                got = sorted(got)
+                ctx.check(got == sorted(exp_ar), "C10.rises_analog",
+                          lambda: f"analog rises ({lay} layout, axis {axis}): got {got[:6]} expected {sorted(exp_ar)[:6]}")
+
+
+def _e2e_layout(case, ctx, U, got, exp_all, lay, ro):
+    """fronts / rises / falls on the [ns, nl] array returned by read_sync, handed over in another layout."""
+    ns, nl = got.shape
+    p = case.get("lay_p", 0)
+    linemap = list(range(nl))
+    tax = 0  # axis along which time runs in the array handed over
+    base = None
+    if lay == "T":  # one line per row, view: sync.T
+        arr, tax = got.T, 1
+    elif lay == "T_copy":  # one line per row, C-contiguous
+        arr, tax = np.ascontiguousarray(got.T), 1
+    elif lay == "f":
+        arr = np.asfortranarray(got)
+    elif lay == "cols":  # every other line: strided view
+        arr = got[:, p % 2::2]
+        linemap = linemap[p % 2::2]
+    elif lay in ("window", "f_window"):
+        base = np.full((ns + p + 2, nl + 3), 1 - int(got[0, 0]), dtype=got.dtype, order="F" if lay == "f_window" else "C")
+        arr = base[p:p + ns, 2:2 + nl]
+        arr[...] = got
+    else:
+        arr = got.copy()
+    if base is None:
+        base = arr
+    if ro:
+        arr.flags.writeable = False
+    mode = case.get("e2e_axis", "pos")
+    kw = {"axis": tax} if mode == "pos" else ({"axis": tax - 2} if mode == "neg" else ({} if tax == 1 else {"axis": tax}))
+    ctx.label("e2e_" + _mem_class(arr), "e2e_time_axis_%d_%s" % (tax, "default" if not kw else ("neg" if kw["axis"] < 0 else "pos")))
+    guard = _Guard(ctx, arr, base)
+    exp_e = sorted((linemap[j], i, s_) for j in range(len(linemap)) for i, s_ in _edges(exp_all[:, linemap[j]]))
+    what = f"layout {lay}{' read-only' if ro else ''}, time along axis {tax}, call with {kw or 'the default axis'}"
+
+    def events(pos, signs):
+        if any(not 0 <= q[1 - tax] < len(linemap) for q in pos):
+            return "line index outside of the array"  # compares unequal to the expected list
+        return sorted((linemap[q[1 - tax]], q[tax], s_) for q, s_ in zip(pos, signs))
+
+    r = ctx.call("C10.fronts2d", U.fronts, arr, **kw)
+    if r is not ctx.CRASH:
+        guard.verify("fronts")
+        fl = _fronts_list(ctx, "C10.e2e_fronts_layout", r, 2)
+        if fl is not None:
+            ctx.check(events([q for q, _ in fl], [int(s_) for _, s_ in fl]) == exp_e, "C10.e2e_fronts_layout",
+                      lambda: f"fronts ({what}): recovered events differ from the generated edges")
+    for nm, fn, sg_ in (("rises", U.rises, 1), ("falls", U.falls, -1)):
+        r = ctx.call("C10." + nm + "2d", fn, arr, **kw)
+        if r is ctx.CRASH:
+            continue
+        guard.verify(nm)
+        pos = _ind_list(ctx, "C10.e2e_%s_layout" % nm, r, 2)
+        if pos is not None:
+            ctx.check(events(pos, [sg_] * len(pos)) == [e for e in exp_e if e[2] == sg_], "C10.e2e_%s_layout" % nm,
+                      lambda: f"{nm} ({what}): recovered events differ from the generated edges")
+    if tax == 1:  # line by line on the rows (contiguous for the copy, strided for the view)
+        for j in range(len(linemap)):
+            r = ctx.call("C10.fronts", U.fronts, arr[j])
+            if r is ctx.CRASH:
+                return
+            fl = _fronts_list(ctx, "C10.e2e_fronts_layout", r, 1)
+            if fl is None or not ctx.check([(q[0], int(s_)) for q, s_ in fl] == _edges(exp_all[:, linemap[j]]), "C10.e2e_fronts_layout",
+                                           lambda: f"fronts on row {j} ({what}): recovered edges differ from the generated ones"):
+                break
+        guard.verify("fronts (rows)")
 
 
 def _run_train(case, ctx, sg):
@@ -297,25 +566,37 @@ def _run_train(case, ctx, sg):
                 fr = ctx.call("C10.fronts", U.fronts, got[:, k])
                 if fr is ctx.CRASH:
                     return
-                ind, sign = fr
-                ok = list(zip(np.asarray(ind).tolist(), np.asarray(sign).astype(int).tolist())) == e
+                fl = _fronts_list(ctx, "C10.e2e_fronts", fr, 1)
+                if fl is None:
+                    break
+                ok = [(q[0], int(s_)) for q, s_ in fl] == e
                 if not ctx.check(ok, "C10.e2e_fronts", lambda: f"line {k}: recovered edges differ from the generated ones"):
                     break
                 ri = ctx.call("C10.rises", U.rises, got[:, k])
                 fa = ctx.call("C10.falls", U.falls, got[:, k])
                 if ri is ctx.CRASH or fa is ctx.CRASH:
                     return
-                if not ctx.check(np.asarray(ri).tolist() == [i for i, s in e if s > 0] and
-                                 np.asarray(fa).tolist() == [i for i, s in e if s < 0], "C10.e2e_rises_falls",
+                ri, fa = _ind_list(ctx, "C10.e2e_rises_falls", ri, 1), _ind_list(ctx, "C10.e2e_rises_falls", fa, 1)
+                if ri is None or fa is None:
+                    break
+                if not ctx.check([q[0] for q in ri] == [i for i, s in e if s > 0] and
+                                 [q[0] for q in fa] == [i for i, s in e if s < 0], "C10.e2e_rises_falls",
                                  lambda: f"line {k}: rises/falls differ from the generated edges"):
                     break
             # 2-D call along the time axis
             fr2 = ctx.call("C10.fronts2d", U.fronts, got[:, :16], axis=0)
             if fr2 is not ctx.CRASH:
-                ind, sign = fr2
-                got_e = sorted((int(c), int(t), int(s)) for (t, c), s in zip(np.asarray(ind).T, np.asarray(sign)))
-                exp_e = sorted((k, i, s) for k in range(16) for i, s in _edges(lines[:, k]))
-                ctx.check(got_e == exp_e, "C10.e2e_fronts2d", "2-D fronts along axis 0 differ from the generated edges")
+                fl = _fronts_list(ctx, "C10.e2e_fronts2d", fr2, 2)
+                if fl is not None:
+                    got_e = sorted((c, t, int(s_)) for (t, c), s_ in fl)
+                    exp_e = sorted((k, i, s_) for k in range(16) for i, s_ in _edges(lines[:, k]))
+                    ctx.check(got_e == exp_e, "C10.e2e_fronts2d", "2-D fronts along axis 0 differ from the generated edges")
+            # the same array in another memory layout (all lines, analog ones included): layout must not matter
+            lay = case.get("e2e_layout", "c")
+            ro = bool(case.get("e2e_ro", False))
+            ctx.label("e2e_lay_" + lay, "e2e_ro" if ro else "e2e_rw")
+            if (lay != "c" or ro) and np.array_equal(got, exp_all):
+                _e2e_layout(case, ctx, U, got, exp_all, lay, ro)
         finally:
             try:
                 sr.close()
